@@ -19,15 +19,15 @@ META = dict(
     explanation="(a) VQESolver.get_rdm on SYMBOLIC parameter vectors (H2/sto-3g, JW/BK/scBK/JKMN x both orderings, spin-summed "
                 "and spin-resolved) through the exact cirq stub: molecule.energy_from_rdms(rdm1, rdm2) == energy_estimation(theta) "
                 "identically in theta, the matrices are Hermitian and trace to the number of active electrons (N(N-1) for the "
-                "2-RDM). (b) pad_rdms_with_frozen_orbitals_restricted on SYMBOLIC active-space RDM entries and SYMBOLIC "
+                "2-RDM). (b) pad_rdms_with_frozen_orbitals_restricted and _unrestricted (per-spin blocks, different alpha/beta integrals and frozen lists) on SYMBOLIC active-space RDM entries and SYMBOLIC "
                 "full-space integrals (Tangelo's IntegralSolver seam): energy of the padded matrices on the unfrozen molecule == "
                 "energy of the active matrices on the frozen molecule, traces carry the frozen electrons, the arrays passed in "
                 "are unchanged. (c) molecule.energy_from_rdms / rdms.energy_from_rdms index conventions against the textbook "
                 "contraction E = E0 + sum h_pq g_pq + 1/2 sum (pq|rs) G_pqrs on symbolic inputs.",
     bounds=dict(quick="H2 (4 spin-orbitals) UCCSD with 2 symbolic parameters; padding with <=4 spatial orbitals, <=1 frozen occupied + <=1 frozen virtual",
                 thorough="more encodings/orderings and frozen patterns"),
-    outside=["RDMs of the FCI / CCSD / MP2 solvers (PySCF compiled code)", "unrestricted padding (uses the same C helper on per-spin blocks; "
-             "restricted variant only)", "IEEE rounding", "sampled (n_shots) RDMs"],
+    outside=["RDMs of the FCI / CCSD / MP2 solvers (PySCF compiled code; auxiliary concrete shapes only)", "IEEE rounding", "sampled (n_shots) RDMs",
+             "padding with more than 4 (restricted) / 3 (unrestricted) spatial orbitals"],
     stubs=["cirq simulators -> exact stubs", "pyscf.lib.takebak_2d -> out[idx[:,None], idy] += a (its documented contract) when arrays are symbolic",
            "IntegralSolverPySCF -> SymIntegralSolver for (b), (c)"],
     trusted_base=["symx.refsem", "textbook RDM energy contraction"],
@@ -175,6 +175,67 @@ def h_pad(env, n_mos, ne, frozen, canary=False):
     env.check_vec_eq(after2, snap2, "pad_rdms leaves the 2-RDM passed in unchanged")
 
 
+def _sym_rdm_block(env, pre, n1, n2=None, same=True):
+    """arbitrary real RDM blocks: 1-RDM symmetric; same-spin 2-RDM with pair-exchange + Hermitian symmetry; the alpha-beta block
+    G[p,q,r,s] (p,q alpha; r,s beta) with the Hermitian symmetry only"""
+    n2 = n1 if n2 is None else n2
+    g2 = [[[[None] * n2 for _ in range(n2)] for _ in range(n1)] for _ in range(n1)]
+    for p, q, r, s in itertools.product(range(n1), range(n1), range(n2), range(n2)):
+        if g2[p][q][r][s] is None:
+            v = env.real(f"{pre}{p}{q}{r}{s}", -2, 2)
+            img = ((p, q, r, s), (r, s, p, q), (q, p, s, r), (s, r, q, p)) if same else ((p, q, r, s), (q, p, s, r))
+            for (a, b, c, d) in img:
+                g2[a][b][c][d] = v
+    return g2
+
+
+def h_pad_unrestricted(env, n_mos, ne, spin, frozen, canary=False):
+    """pad_rdms_with_frozen_orbitals_unrestricted on SYMBOLIC per-spin RDM blocks, DIFFERENT alpha/beta integrals and per-spin
+    frozen lists: energy of the padded blocks on the unfrozen molecule == energy of the active blocks on the frozen molecule"""
+    from tangelo.toolboxes.molecular_computation.rdms import pad_rdms_with_frozen_orbitals_unrestricted
+    from harness.c04 import _sym8, _sym_ab
+    const = env.real("E0", -2, 2)
+    ha, eaa = _sym8(env, n_mos, "a")
+    hb, ebb = _sym8(env, n_mos, "b")
+    eab = _sym_ab(env, n_mos)
+    restore = _takebak_patch(env)
+    try:
+        with alloc(env):
+            kw = dict(uhf=True, h_b=hb, eri_ab=eab, eri_bb=ebb)
+            m_fr = symmol.molecule(n_mos, ne, spin, const, ha, eaa, env.symbolic, frozen=frozen, **kw)
+            m_full = symmol.molecule(n_mos, ne, spin, const, ha, eaa, env.symbolic, frozen=None, **kw)
+            na, nb = m_fr.n_active_mos
+            g1a = [[None] * na for _ in range(na)]
+            g1b = [[None] * nb for _ in range(nb)]
+            for g, n_, pre in ((g1a, na, "da"), (g1b, nb, "db")):
+                for i in range(n_):
+                    for j in range(i, n_):
+                        g[i][j] = g[j][i] = env.real(f"{pre}{i}{j}", -2, 2)
+            gaa, gbb = _sym_rdm_block(env, "Daa", na), _sym_rdm_block(env, "Dbb", nb)
+            gab = _sym_rdm_block(env, "Dab", na, nb, same=False)
+            one = (arr(env, g1a), arr(env, g1b))
+            two = (arr(env, gaa), arr(env, gab), arr(env, gbb))
+            snaps = [[x for x in a.reshape(-1)] for a in one + two]
+            p1, p2 = pad_rdms_with_frozen_orbitals_unrestricted(m_fr, one, two)
+            afters = [[x for x in a.reshape(-1)] for a in one + two]
+            e_act = m_fr.energy_from_rdms([arr(env, g1a), arr(env, g1b)], [arr(env, gaa), arr(env, gab), arr(env, gbb)])
+            e_full = m_full.energy_from_rdms(list(p1), list(p2))
+    finally:
+        restore()
+    if canary:
+        e_full = e_full + const
+    env.check_eq(e_full, e_act, f"UHF: energy of padded RDM blocks on the unfrozen molecule == energy of the active blocks with folded integrals (frozen={frozen})")
+    for sp, (g, n_) in enumerate(((g1a, na), (g1b, nb))):
+        tr_a, tr_p = R.C(0), R.C(0)
+        for i in range(n_):
+            tr_a = tr_a + g[i][i]
+        for i in range(n_mos):
+            tr_p = tr_p + p1[sp][i, i]
+        env.check_eq(tr_p, tr_a + len(m_fr.frozen_occupied[sp]), f"UHF: trace of padded 1-RDM (spin {sp}) == active trace + 1 per frozen occupied orbital")
+    for k, (a, b) in enumerate(zip(afters, snaps)):
+        env.check_vec_eq(a, b, f"UHF: pad_rdms leaves input block {k} unchanged")
+
+
 def h_aux_solver_rdm(env, key, solver):
     """AUXILIARY concrete shape (no solver role; PySCF numerics): the RDMs of the classical solvers reproduce that solver's
     energy through molecule.energy_from_rdms, are symmetric and trace to the number of active electrons (1e-6)."""
@@ -229,6 +290,12 @@ def shapes(tier, seed):
     for (n, ne, fr) in pads:
         try_name = f"pad/n{n}e{ne}/{fr}"
         out.append(Shape(try_name, h_pad, dict(n_mos=n, ne=ne, frozen=fr), modules=MODS, max_paths=8))
+    upads = [(3, 3, 1, [[0], []]), (3, 4, 0, [[0], [0, 2]]), (3, 3, 1, [[0, 2], [0]])]
+    if tier == "thorough":
+        upads += [(3, 4, 0, [[], [1]]), (3, 5, 1, [[0, 1], [0]]), (3, 2, 0, [[2], []]), (3, 3, 1, [[1], [2]])]
+    for (n, ne, sp, fr) in upads:
+        out.append(Shape(f"pad_uhf/n{n}e{ne}s{sp}/{fr}", h_pad_unrestricted, dict(n_mos=n, ne=ne, spin=sp, frozen=fr), modules=MODS, max_paths=8))
+    out.append(Shape("canary/pad_uhf", h_pad_unrestricted, dict(n_mos=3, ne=3, spin=1, frozen=[[0], []], canary=True), modules=MODS, max_paths=8, canary=True))
     out.append(Shape("canary/pad", h_pad, dict(n_mos=3, ne=4, frozen=[0], canary=True), modules=MODS, max_paths=8, canary=True))
     for (n, ne, fr) in [(2, 2, None), (3, 4, [0]), (3, 2, [2])]:
         out.append(Shape(f"energy_convention/n{n}e{ne}/{fr}", h_energy_convention, dict(n_mos=n, ne=ne, frozen=fr), modules=MODS, max_paths=8))
